@@ -14,11 +14,14 @@ U32, U64 = 2 ** 32, 2 ** 64
 def world():
     w = {'__bases__': {}}
     for cls in ('MovieFragmentHeaderBox', 'MovieExtendsHeaderBox', 'TrackExtendsBox', 'TrackFragmentDecodeTimeBox',
-                'TrackFragmentHeaderBox', 'TrackFragmentRunBox', 'TrackEncryptionBox', 'MediaHeaderBox', 'EventMessageBox', 'ContentProtectionSpecificBox'):
+                'TrackFragmentHeaderBox', 'TrackFragmentRunBox', 'TrackEncryptionBox', 'MediaHeaderBox', 'EventMessageBox', 'ContentProtectionSpecificBox', 'SegmentIndexBox'):
         w['__bases__'][cls] = ['FullBox']
     w['ISO_EPOCH'] = DT(z3.IntVal(ISO_EPOCH_US))
     for nm in ('creation_s', 'modification_s', 'default_kid', 'payload', 'system_id', 'kid0', 'kid1', 'kid2'):
         w[nm] = z3.Int(nm)
+    for k in range(2):
+        for f in ('ref_type', 'ref_size', 'duration', 'starts_with_SAP', 'SAP_type', 'SAP_delta_time'):
+            w[f'r{k}_{f}'] = z3.Int(f'r{k}_{f}')
     def bytes_value(p):
         if isinstance(p, bytes):
             return z3.IntVal(int.from_bytes(p, 'big'))
@@ -31,7 +34,7 @@ def world():
     w['bytes_value'] = bytes_value
     w['__bases__']['FullBox'] = ['Mp4Atom']
     # FieldWriter / FieldReader are the repository's own classes: constructed and run as real code (inlined)
-    w['__inline_ctors__'] = {'FieldWriter': FIO_W, 'FieldReader': FIO_R}
+    w['__inline_ctors__'] = {'FieldWriter': FIO_W, 'FieldReader': FIO_R, 'BitsFieldReader': 'dashlive/utils/fio/bits_field_reader.py'}
     w['consumed'] = lambda t: z3.BoolVal(t.cursor == len(t.fields) and t.partial == 0)
     w['nbytes'] = lambda t: t.total()
     for nm in ('moof_position', 'moof_size', 'mdat_header_size', 'base_data_offset', 'senc_position', 'sample0_offset', 'offset0'):
@@ -298,15 +301,62 @@ def pssh_contract(nkids, with_data):
 
 PSSH = [pssh_contract(0, False), pssh_contract(1, True), pssh_contract(2, True), pssh_contract(3, False)]
 
+# --- sidx (on-demand profile index): header + a list of 12-byte references packed from bit fields
+SIDX_REF_FIELDS = [('ref_type', 1), ('ref_size', 31), ('duration', 32), ('starts_with_SAP', 1), ('SAP_type', 3), ('SAP_delta_time', 28)]
+BFR = 'dashlive/utils/fio/bits_field_reader.py'
+
+
+def sidx_contract(nrefs):
+    def env(w, o):
+        refs = []
+        for k in range(nrefs):
+            refs.append(Obj('SegmentReference', {f: z3.Int(f'r{k}_{f}') for f, _ in SIDX_REF_FIELDS}))
+        o.f.update(reference_id=z3.Int('reference_id'), timescale=z3.Int('timescale'),
+                   earliest_presentation_time=z3.Int('earliest_presentation_time'), first_offset=z3.Int('first_offset'),
+                   references=PyList(refs))
+    req = [u32('reference_id'), u32('timescale'), fits_v('self.earliest_presentation_time'), fits_v('self.first_offset')]
+    rt = ("result['version'] == old(self.version) and result['flags'] == old(self.flags) and "
+          "result['reference_id'] == old(self.reference_id) and result['timescale'] == old(self.timescale) and "
+          "result['earliest_presentation_time'] == old(self.earliest_presentation_time) and "
+          f"result['first_offset'] == old(self.first_offset) and length(result['references']) == {nrefs}")
+    for k in range(nrefs):
+        for f, bits in SIDX_REF_FIELDS:
+            req.append((f'r{k}_{f}_{bits}bit', f'0 <= r{k}_{f} and r{k}_{f} < {2 ** bits}'))
+            if bits == 1:
+                rt += f" and result['references'][{k}].{f} == (r{k}_{f} == 1)"
+            else:
+                rt += f" and result['references'][{k}].{f} == r{k}_{f}"
+    c = box_contract('SegmentIndexBox', [], req, extra_env=env, roundtrip=rt,
+                     size=f'(32 if self.version == 1 else 24) + 12 * {nrefs}')
+    c.variant = f'SegmentIndexBox+{nrefs}refs'
+    c.props = ['C04', 'C06']
+    c.ctors = {'SegmentReference': lambda eng, a, kw: Obj('SegmentReference', dict(kw))}
+    from pyvc.models.trace import BITSTRING_MODELS
+    c.models = dict(c.models, **BITSTRING_MODELS)
+    c.canaries = ["result['timescale'] == 0"]
+    names = ['version', 'flags', 'reference_id', 'timescale', 'earliest_presentation_time', 'first_offset'] + \
+            [f'r{k}_{f}' for k in range(nrefs) for f, _ in SIDX_REF_FIELDS]
+    c.witness_terms = lambda w: (lambda ev: {k: ev(z3.Int(k)) for k in names})
+    return c
+
+
+SIDX = [sidx_contract(0), sidx_contract(1), sidx_contract(2)]
+
 # inline helpers reached through self.encode_box_fields(dest)
 INLINE = [Contract(key=f'{MP4}:{cls}.encode_box_fields', props=[], inline=True)
           for cls in ('MovieFragmentHeaderBox', 'MovieExtendsHeaderBox', 'TrackExtendsBox', 'TrackFragmentDecodeTimeBox',
-                      'TrackFragmentHeaderBox', 'TrackFragmentRunBox', 'TrackEncryptionBox', 'MediaHeaderBox', 'EventMessageBox', 'ContentProtectionSpecificBox')] + \
+                      'TrackFragmentHeaderBox', 'TrackFragmentRunBox', 'TrackEncryptionBox', 'MediaHeaderBox', 'EventMessageBox', 'ContentProtectionSpecificBox', 'SegmentIndexBox')] + \
          [Contract(key=f'{MP4}:FullBox.parse', props=[], inline=True),
           Contract(key=f'{MP4}:TrackFragmentRunBox.output_box_fields', props=[], inline=True),
           Contract(key='dashlive/utils/binary.py:Binary.__len__', props=[], inline=True),
           Contract(key='dashlive/utils/date_time.py:to_iso_epoch', props=[], inline=True),
           Contract(key='dashlive/utils/date_time.py:from_iso_epoch', props=[], inline=True),
+          Contract(key=f'{MP4}:SegmentReference.encode', props=[], inline=True),
+          Contract(key=f'{MP4}:SegmentReference.parse', props=[], inline=True),
+          Contract(key=f'{FIO_W}:FieldWriter.writebits', props=[], inline=True),
+          Contract(key=f'{FIO_W}:FieldWriter.done', props=[], inline=True),
+          Contract(key=f'{BFR}:BitsFieldReader.read', props=[], inline=True),
+          Contract(key=f'{BFR}:BitsFieldReader.get', props=[], inline=True),
           Contract(key=f'{FIO_W}:FieldWriter.write', props=[], inline=True),
           Contract(key=f'{FIO_R}:FieldReader.read', props=[], inline=True),
           Contract(key=f'{FIO_R}:FieldReader.get', props=[], inline=True),
@@ -429,7 +479,7 @@ FIND_FIRST = Contract(key=f'{MP4}:SampleAuxiliaryInformationOffsetsBox.find_firs
 
 GROUP = Group(
     name='mp4', world=world,
-    contracts=[MFHD, MEHD, TREX, TFDT, TFHD, TRUN, TENC, MDHD] + EMSG + PSSH + [BTRT, PASP, TFDT_SETATTR, TRUN_POST_ENCODE] + SAIO + [FIND_FIRST] + INLINE,
+    contracts=[MFHD, MEHD, TREX, TFDT, TFHD, TRUN, TENC, MDHD] + EMSG + PSSH + SIDX + [BTRT, PASP, TFDT_SETATTR, TRUN_POST_ENCODE] + SAIO + [FIND_FIRST] + INLINE,
     assumptions=[
         'C04: FieldWriter.__init__/write and FieldReader.__init__/read/get/skip (dashlive/utils/fio) are analysed as real code '
         '(inlined at every call, for the format codes the boxes under contract use); struct.pack / struct.unpack (stdlib) and '
